@@ -36,12 +36,6 @@ func c11RunPlugin(t *testing.T, in *c11Input) c11Impl {
 		opts.Decoy = &NodeOpts{N: 4, F: 1, Digest: [32]byte{0xd}}
 	}
 	node := NewNode(t, opts)
-	time.Sleep(1637 * time.Millisecond) // every service running; off the 1 s grid of the tickers
-	defer func() {
-		node.Close()
-		time.Sleep(11 * time.Second)
-		synctest.Wait()
-	}()
 	node.Run.mu.Lock()
 	node.Run.fn = func(_ context.Context, ps []ocr2keepers.UpkeepPayload) ([]ocr2keepers.CheckResult, error) {
 		out := make([]ocr2keepers.CheckResult, 0, len(ps))
@@ -52,6 +46,38 @@ func c11RunPlugin(t *testing.T, in *c11Input) c11Impl {
 		return out, nil
 	}
 	node.Run.mu.Unlock()
+	feed := func(ps []JProp) (cond bool) {
+		for _, p := range fromJProps(ps) {
+			pl := ocr2keepers.UpkeepPayload{UpkeepID: p.UpkeepID, Trigger: p.Trigger, WorkID: p.WorkID}
+			switch utg(p.UpkeepID) {
+			case types.LogTrigger:
+				node.Recov.mu.Lock()
+				node.Recov.payloads = append(node.Recov.payloads, pl)
+				node.Recov.mu.Unlock()
+			case types.ConditionTrigger:
+				node.Getter.mu.Lock()
+				node.Getter.upkeeps = append(node.Getter.upkeeps, pl)
+				node.Getter.mu.Unlock()
+				cond = true
+			}
+		}
+		return
+	}
+	// Early: the leading add operations are fed the moment the instance exists, while its services are still
+	// being started: they arrive with the very first tick of the flows
+	early := 0
+	if in.Early {
+		for early < len(in.Ops) && in.Ops[early].Op == "add" {
+			feed(in.Ops[early].Ps)
+			early++
+		}
+	}
+	time.Sleep(1637 * time.Millisecond) // every service running; off the 1 s grid of the tickers
+	defer func() {
+		node.Close()
+		time.Sleep(11 * time.Second)
+		synctest.Wait()
+	}()
 
 	seen := map[string]uint8{}
 	note := func(ps []JProp) {
@@ -65,23 +91,18 @@ func c11RunPlugin(t *testing.T, in *c11Input) c11Impl {
 	ctx := context.Background()
 	seq := uint64(10)
 	clearGetter := false
-	for i, op := range in.Ops {
+	var lastObs []JProp
+	var lastSf [][]JProp
+	for i := range in.Ops {
+		op := &in.Ops[i]
 		switch op.Op {
 		case "add":
 			note(op.Ps)
-			for _, p := range fromJProps(op.Ps) {
-				pl := ocr2keepers.UpkeepPayload{UpkeepID: p.UpkeepID, Trigger: p.Trigger, WorkID: p.WorkID}
-				switch utg(p.UpkeepID) {
-				case types.LogTrigger:
-					node.Recov.mu.Lock()
-					node.Recov.payloads = append(node.Recov.payloads, pl)
-					node.Recov.mu.Unlock()
-				case types.ConditionTrigger:
-					node.Getter.mu.Lock()
-					node.Getter.upkeeps = append(node.Getter.upkeeps, pl)
-					node.Getter.mu.Unlock()
-					clearGetter = true
-				}
+			if i < early {
+				break // fed before the services ran
+			}
+			if feed(op.Ps) {
+				clearGetter = true
 			}
 		case "adv":
 			if op.D > 0 {
@@ -94,9 +115,39 @@ func c11RunPlugin(t *testing.T, in *c11Input) c11Impl {
 				node.Getter.mu.Unlock()
 				clearGetter = false
 			}
+		case "probe":
+			// the recoverable provider offers these logs (again); one tick of the recovery proposal flow later the
+			// runner has been asked about exactly those that passed the flow's proposal filterer
+			ps := op.Ps
+			if op.Ref > 0 && op.Ref <= len(in.Ops) {
+				ps = in.Ops[op.Ref-1].Ps
+			}
+			note(ps)
+			node.Run.mu.Lock()
+			from := len(node.Run.calls)
+			node.Run.mu.Unlock()
+			feed(ps)
+			time.Sleep(time.Duration(c11LogAddWait))
+			synctest.Wait()
+			ran := map[string]bool{}
+			node.Run.mu.Lock()
+			for _, call := range node.Run.calls[from:] {
+				for _, pl := range call {
+					ran[pl.WorkID] = true
+				}
+			}
+			node.Run.mu.Unlock()
+			impl.Outs[i] = []JProp{}
+			for _, p := range ps {
+				if ran[p.WID] {
+					impl.Outs[i] = append(impl.Outs[i], p)
+				}
+			}
 		case "obs":
 			var prev []byte
 			if !op.First {
+				c11Resolve(op, lastObs, lastSf)
+				lastSf = op.Surfaced
 				outcome := ocr2keepersv3.AutomationOutcome{}
 				for _, round := range op.Surfaced {
 					note(round)
@@ -121,6 +172,7 @@ func c11RunPlugin(t *testing.T, in *c11Input) c11Impl {
 				break
 			}
 			impl.Outs[i] = toJProps(obs.UpkeepProposals)
+			lastObs = impl.Outs[i]
 			note(impl.Outs[i])
 		default:
 			t.Fatalf("plugin mode: unknown op %q", op.Op)
@@ -172,6 +224,15 @@ func (b *c11PB) obs(first bool, sf [][]JProp) {
 	}
 	b.ops = append(b.ops, c11Op{Op: "obs", First: first, Surfaced: cp})
 }
+func (b *c11PB) obsPick(latest []JProp, pick string, pickN int, cand []JProp) {
+	b.ops = append(b.ops, c11Op{Op: "obs", Surfaced: [][]JProp{append([]JProp{}, latest...)}, Pick: pick, PickN: pickN,
+		Cand: append([]JProp(nil), cand...), Carry: true})
+}
+func (b *c11PB) obsAgain() { b.ops = append(b.ops, c11Op{Op: "obs", Pick: "again"}) }
+func (b *c11PB) adv(d int64) { b.ops = append(b.ops, c11Op{Op: "adv", D: d}) }
+
+// probe: payloads for the proposals of the operation at index `at`
+func (b *c11PB) probe(at int) { b.ops = append(b.ops, c11Op{Op: "probe", Ref: at + 1}) }
 func (b *c11PB) input(decoy bool) c11Input {
 	return c11Input{Types: []c11Type{}, Ops: b.ops, Mode: "plugin", Decoy: decoy}
 }
@@ -249,6 +310,166 @@ func c11GenPlugin(r *Rng, em *Emitter) c11Input {
 	return b.input(r.Chance(15))
 }
 
+
+// c11GenPluginWide: as c11GenPlugin, with more pending proposals than an observation carries (the same hook
+// instances from Observation to Observation) and outcomes that surface what the node deferred in its last
+// observation (another node proposed it), what it sent, and what it never held; the history of the previous
+// outcome is carried along; sometimes the first proposals arrive while the services are still being started.
+func c11GenPluginWide(r *Rng, em *Emitter) c11Input {
+	nl, nc := r.Range(6, 14), 0
+	if r.Chance(40) {
+		nc = r.Range(1, 7)
+	}
+	logs, conds := c11PluginPool(r, nl, nc)
+	foreignL, foreignC := c11PluginPool(r, 4, 2)
+	foreign := append(foreignL, foreignC...)
+	fixed := map[string]JProp{}
+	prop := func(id c11Ident) JProp {
+		if p, ok := fixed[id.wid]; ok {
+			return p
+		}
+		p := id.at(r, 100)
+		fixed[id.wid] = p
+		return p
+	}
+	all := append(append([]c11Ident{}, logs...), conds...)
+	b := &c11PB{}
+	var first []JProp
+	for _, id := range logs {
+		if r.Chance(90) {
+			first = append(first, prop(id))
+		}
+	}
+	early := r.Chance(25) && len(first) > 0
+	b.addLogs(first...)
+	for _, id := range conds {
+		if r.Chance(85) {
+			b.addCond(prop(id))
+		}
+	}
+	b.obs(true, nil)
+	surfaced := map[string]bool{} // in the carried history for certain
+	rounds := r.Range(3, 7)
+	for k := 0; k < rounds; k++ {
+		if k > 0 && r.Chance(30) {
+			b.obsAgain()
+			em.Hit("plugin-wide:same-outcome-again")
+		} else {
+			var cand []JProp
+			for _, i := range r.Perm(len(all)) {
+				p := prop(all[i])
+				if r.Chance(25) { // surfaced on the coordinated block, not the one the node proposed
+					p = all[i].at(r, uint64(101+r.Intn(2)))
+				}
+				cand = append(cand, p)
+			}
+			pick, pickN := "", 0
+			var latest []JProp
+			switch x := r.Intn(100); {
+			case x < 50:
+				pick, pickN = "deferred", r.Range(1, 3)
+				em.Hit("plugin-wide:outcome-surfaces-deferred")
+			case x < 70:
+				pick, pickN = "sent", r.Range(1, 3)
+				em.Hit("plugin-wide:outcome-surfaces-sent")
+			case x < 92:
+				for _, p := range cand {
+					if !surfaced[p.WID] && r.Chance(20) {
+						latest = append(latest, p)
+						surfaced[p.WID] = true
+					}
+				}
+				em.Hit("plugin-wide:outcome-surfaces-random")
+			}
+			if r.Chance(40) {
+				f := foreign[r.Intn(len(foreign))]
+				if !surfaced[f.wid] {
+					surfaced[f.wid] = true
+					latest = append(latest, prop(f))
+				}
+			}
+			b.obsPick(latest, pick, pickN, cand)
+		}
+		// between the rounds the node's flows (re-)propose work, surfaced or not
+		var again []JProp
+		for _, id := range logs {
+			if r.Chance(30) {
+				again = append(again, prop(id))
+			}
+		}
+		if r.Chance(50) {
+			b.addLogs(again...)
+		}
+		if len(conds) > 0 && r.Chance(30) {
+			b.addCond(prop(conds[r.Intn(len(conds))]))
+		}
+		if r.Chance(15) {
+			b.obs(true, nil) // a round without a previous outcome
+		}
+	}
+	em.Hit("plugin-wide")
+	in := b.input(r.Chance(10))
+	in.Early = early
+	if early {
+		em.Hit("plugin-wide:first-proposals-while-services-start")
+	}
+	return in
+}
+
+// c11GenPluginBurst: 66 … 140 log proposals arrive in one tick of the recovery proposal flow; round after round
+// the outcome surfaces up to 50 proposals — the node's own alternating with other nodes' — and carries its
+// history along, so that every Observation removes again what earlier rounds removed.  Part of the burst is
+// never surfaced.  More than the runner's cache time later the provider offers the whole burst again: what is
+// still pending is withheld by the flow's proposal filterer, the rest is checked and pending again.  A second
+// drain leaves five or fewer: every observation must carry every one of them.
+func c11GenPluginBurst(r *Rng, em *Emitter) c11Input {
+	n := r.Range(66, 140)
+	logs, _ := c11PluginPool(r, n, 0)
+	props := make([]JProp, n)
+	for i := range logs {
+		props[i] = logs[i].at(r, 100)
+	}
+	b := &c11PB{}
+	addAt := len(b.ops)
+	b.addLogs(props...)
+	b.obs(true, nil)
+	absentShare := []int{40, 60, 80}[r.Intn(3)]
+	drain := func(order []int, keep int) {
+		var history [][]JProp
+		for len(order) > keep {
+			var latest []JProp
+			for len(latest) < ocr2keepersv3.OutcomeSurfacedProposalsLimit-1 && len(order) > keep {
+				if r.Chance(absentShare) {
+					f, _ := c11PluginPool(r, 1, 0)
+					latest = append(latest, f[0].at(r, 100))
+				}
+				latest = append(latest, props[order[0]])
+				order = order[1:]
+				if r.Chance(3) {
+					break
+				}
+			}
+			history = append([][]JProp{latest}, history...)
+			if len(history) > ocr2keepersv3.OutcomeSurfacedProposalsRoundHistoryLimit {
+				history = history[:ocr2keepersv3.OutcomeSurfacedProposalsRoundHistoryLimit]
+			}
+			b.obs(false, history)
+		}
+		b.obs(false, history)
+	}
+	// first drain: a remainder of the burst never reaches an outcome
+	drain(r.Perm(n), r.Range(6, n/3))
+	// the runner answers from its cache for 20 minutes; the proposal queue has long been emptied
+	b.adv(21*int64(time.Minute) + int64(r.Range(1, 900))*int64(time.Millisecond))
+	b.probe(addAt)
+	b.obs(false, [][]JProp{{}})
+	// second drain: everything but a handful
+	drain(r.Perm(n), r.Range(0, 5))
+	b.obs(false, [][]JProp{{}})
+	em.Hit("plugin-burst")
+	return b.input(false)
+}
+
 // c11PluginEdge: hand-written plugin-level histories.
 func c11PluginEdge() []c11Input {
 	r := NewRng(440044)
@@ -292,6 +513,30 @@ func c11PluginEdge() []c11Input {
 		b.obs(false, sf)
 		b.obs(false, [][]JProp{{}})
 		out = append(out, b.input(false))
+	}
+	// P3. eight pending log proposals: five per observation; the outcome surfaces two of the three the node
+	//     deferred (proposed by other nodes), then the same outcome again, then two it sent, then one more
+	//     deferred: three are left and every observation carries all three
+	{
+		logs, _ := c11PluginPool(r, 8, 0)
+		var all []JProp
+		for _, id := range logs {
+			all = append(all, id.at(r, 100))
+		}
+		b := &c11PB{}
+		b.addLogs(all...)
+		b.obs(true, nil)
+		b.obsPick(nil, "deferred", 2, all)
+		b.obsAgain()
+		b.obsPick(nil, "sent", 2, all)
+		b.obsPick(nil, "deferred", 1, all)
+		b.obsAgain()
+		in := b.input(false)
+		out = append(out, in)
+		in2 := b.input(false)
+		in2.Ops = append([]c11Op(nil), in.Ops...)
+		in2.Early = true // the proposals arrive while the services are still being started
+		out = append(out, in2)
 	}
 	return out
 }
